@@ -32,7 +32,7 @@ PROPERTY = {
         Harness("c01_unsigned_vint_decode_any_bytes", "C01.vint.decode_any_bytes", "PROVED-C", "any <= 9 bytes: Ok iff the announced bytes are present; never past the end", crate="scylla-cql-core", functions=["scylla-cql-core/src/frame/types.rs:unsigned_vint_decode"]),
     ] + [Harness(f"c01_{n}", f"C01.wrappers.{n}", "PROVED-C", d, crate="scylla-cql-core", functions=["scylla-cql-core/src/serialize/value.rs:Option<T>/MaybeUnset<T>/Unset serialize"])
          for n, d in (("option_none", "None -> null cell be32(-1)"), ("unset", "Unset -> be32(-2)"), ("maybe_unset", "MaybeUnset: Unset -> be32(-2), Set(v) -> v's cell"),
-                      ("option_some", "Some(v) -> v's cell; null reads back as None, the cell as Some(v)"), ("option_mismatch_writes_nothing", "a mismatched Some(v) writes nothing"))] + [
+)] + [
         Harness("c01_canary_i32_little_endian", "C01.kani.canary", "PROVED-C", "a false claim must be refuted", crate="scylla-cql-core", carries=False, canary=True),
     ],
     "trusted_base": ["Verus/Z3 soundness", "i32::to_be_bytes (big-endian)", "Vec slicing + copy_from_slice"],
